@@ -7,7 +7,7 @@ V = os.path.dirname(os.path.abspath(__file__))
 CLAIMED = {
  "C03": dict(cat="model_checking", ref="DESIGN.md sections 5 C03, 11",
    text="Bounded model checking (Kani/CBMC) of the asynchronous resamplers through the public API: concrete construction and warm-up, then a ratio change with EVERY accepted f64 (D_full for Nearest/Linear fixed-output; k/32 grid for multi-frame fixed-input loops and blending degrees in the quick tier) and ramp on/off, then a call with caller buffers of symbolic surplus length; histories with reset(), three successive changes, oversampling factor 1; every CBMC memory-safety / unsafe-precondition / overflow / panic check must hold and calls must return Ok. Sinc types run the real position logic against a probing interpolator asserting the kernel contract; the callee-side contract of get_nearest_time(s_2/3/4) is decided bit-precisely for all |t|<2^20, factor<=2048 on the MIR (mirsym+z3).",
-   note="bounds per harness in evidence (chunk 2-3, max_rel 2-3, 1 channel, warm-up + 1 symbolic step; 2 symbolic steps thorough only); AVX/SSE kernel bodies are decided under C15, FFT bookkeeping under C04/C07 with a stub FFT; recorded findings: F-OS1 (oversampling 1 with Quadratic/Cubic); leaf note: t in [-2^-54,0) excluded (no reaching history known)",
+   note="bounds per harness in evidence (chunk 2-3, max_rel 2-3, 1 channel, warm-up + 1 symbolic step; 2 symbolic steps thorough only); AVX/SSE kernel bodies are decided under C15, FFT bookkeeping under C04/C07 with a stub FFT; recorded findings: F-OS1 (oversampling 1 with Quadratic/Cubic), F5 (ratio jumps on the fixed-input types whose reciprocals are more than ~3 frames apart, region recip_span_ge3); leaf note: t in [-2^-54,0) excluded (no reaching history known)",
    technique="bounded model checking of compiled code (Kani/CBMC SAT) + SMT (z3 FP) over symbolic execution of MIR for the leaf contract"),
  "C04": dict(cat="model_checking", ref="DESIGN.md sections 5 C04, 11",
    text="Frame-count monitors on the C03 runs and on the synchronous (FFT) step family: next<=max before and after every call, consumed == input_frames_next, written <= / == output_frames_next, returned count == frames actually written (sentinel oracle over the caller's backing array), nothing written beyond the advertised count; FFT types: concrete rate/chunk/sub-chunk configurations incl. chunk = multiple of the block, block larger than the chunk, chunk smaller than the block.",
@@ -108,7 +108,7 @@ def main():
         ],
         checks=checks,
         not_applicable=na,
-        notes="Solver-based checking only. Fix commits in /repo: see known_findings.json ('fixed'). Scratch/build output under /var/tmp/rvh (RV_SCRATCH).",
+        notes="Solver-based checking only. Fix commits in /repo: see known_findings.json ('fixed'). Scratch/build output under /var/tmp/rvh (RV_SCRATCH). `./rv warm --tier <t>` optionally pre-computes every harness of a tier in one worker pool (result cache keyed by the /repo tree and the harness module), after which the per-property commands are cache hits; the commands registered here do not depend on it.",
     )
     json.dump(m, open(os.path.join(V, "MANIFEST.json"), "w"), indent=1)
 
